@@ -504,6 +504,8 @@ fn gen_program(mode: &str, seed: u64, idx: u64, thorough: bool) -> Plan {
         "fault" => {
             p.w_persist = 6;
             p.durabilities = true;
+            // values above the journal writer's 8 KiB buffer are written with their own write() call
+            p.max_val = if rng.chance(1, 2) { 20_000 } else { 2_000 };
             manual = rng.chance(1, 3);
             p.w_ingest = 0;
             p.w_reopen = 0;
@@ -1418,6 +1420,26 @@ fn fault_case(seed: u64, idx: u64, thorough: bool, stats: &mut Counts) -> Result
     for n in (skip_c + 1)..=n_creates {
         all.push(format!("{n}:create:28:once"));
     }
+    // structure-aware: journal writes larger than the writer's buffer go to the OS in one call of their own; a short
+    // write there (benign: the caller must complete it; or followed by ENOSPC) is always tried
+    {
+        let mut nth = 0usize;
+        let mut big: Vec<(usize, usize)> = Vec::new();
+        for r in &dry.recs {
+            if r.kind == K_WRITE && is_journal(&r.p1) {
+                nth += 1;
+                if nth > skip_w && r.data.len() >= 8_192 {
+                    big.push((nth, r.data.len()));
+                }
+            }
+        }
+        while specs.len() < 8 && !big.is_empty() {
+            let (n, len) = big.swap_remove(rng.usize(big.len()));
+            specs.push(format!("{n}:write:shortok:{}:once", 1 + rng.usize(len - 1)));
+            specs.push(format!("{n}:write:short:{}:once", 1 + rng.usize(len - 1)));
+            stats.inc("fault.big_write_targets");
+        }
+    }
     // sample without replacement
     while specs.len() < cap && !all.is_empty() {
         let i = rng.usize(all.len());
@@ -1444,6 +1466,7 @@ fn fault_case(seed: u64, idx: u64, thorough: bool, stats: &mut Counts) -> Result
             let mut fault_ops: Vec<Option<usize>> = Vec::new();
             let mut opened = false;
             let mut open_failed = false;
+            let mut benign = 0usize;
             for rec in &run.recs {
                 match rec.kind {
                     K_MARK => {
@@ -1467,15 +1490,21 @@ fn fault_case(seed: u64, idx: u64, thorough: bool, stats: &mut Counts) -> Result
                             _ => {}
                         }
                     }
+                    // result 0 = benign short write (shortok): not a failure, the caller has to complete the write
+                    K_FAULT if rec.result == 0 => benign += 1,
                     K_FAULT => fault_ops.push(if opened { cur } else { None }),
                     _ => {}
                 }
             }
-            if fault_ops.is_empty() {
+            if fault_ops.is_empty() && benign == 0 {
                 stats.inc("fault.not_reached");
                 return Ok(());
             }
-            stats.inc("fault.fired");
+            if benign > 0 {
+                stats.inc("fault.benign_short_write_fired");
+            } else {
+                stats.inc("fault.fired");
+            }
             if open_failed || !opened {
                 // the fault hit database creation: nothing was acknowledged
                 stats.inc("fault.during_open");
